@@ -353,10 +353,15 @@ pub fn table_diff(a: &TableSnap, b: &TableSnap) -> Vec<String> {
 
 /// Simulated elapsed time: move every stored time stamp of every row `secs` seconds into the past.
 pub fn shift_time(table: &Table, secs: i64) {
-    if secs == 0 {
+    shift_time_ms(table, secs * 1000)
+}
+
+/// the same with millisecond resolution
+pub fn shift_time_ms(table: &Table, ms: i64) {
+    if ms == 0 {
         return;
     }
-    let d = Duration::seconds(secs);
+    let d = Duration::milliseconds(ms);
     let mut g = match table.write() {
         Ok(g) => g,
         Err(p) => p.into_inner(),
